@@ -34,7 +34,9 @@ class Gen:
         return getattr(self, 'e_' + t)(d)
 
     FAILS = ['undefined_var', 'nofn(1)', 'hd0["zz"]', 'hl0[9]', '"ab"[5]', 'pop([])', 'pop(hl0, 9)', 'map(1, v => v)', '("z" * 2)',
-             '__setitem_with_op__(hd0, "zz", "+=", 1)', 'rand(1, 2, 3)', 'filter("z", v => v)']
+             '__setitem_with_op__(hd0, "zz", "+=", 1)', 'rand(1, 2, 3)', 'filter("z", v => v)',
+             # undefined names of every shape (leading / trailing underscores, like the internal __getitem__ family), in call, pipe and method position
+             '__nofn()', '__nofn__(1)', '(1 | __len__)', 'hl0.__getitem(0)', '_nofn()', 'nofn__()', '__undefined_var', '__getitem(hl0, 0)']
 
     def leaf(self, t):
         if self.f.get('fail') and self.r.random() < self.f['fail']:
